@@ -1603,3 +1603,186 @@ Proof.
         apply Hfin. exact (G1' Hr).
     + destruct HE as [-> G1]. split; [reflexivity|]. apply Hfin. exact G1.
 Qed.
+
+(* ================================================================== 7. the property theorems *)
+Lemma fits_of_class i : class_longcmd i = false -> cmds_fit i.
+Proof.
+  unfold class_longcmd, cmds_fit. rewrite pipel_spec. intros H Hp. rewrite Hp in H. cbn [negb andb] in H.
+  apply orb_false_iff in H as [Hm Hr]. split.
+  - unfold short_line. pose proof (actual_params_in i) as Hin.
+    assert (Hx : Nat.ltb 512 (length (mail_line i (actual_params i))) = false).
+    { destruct (Nat.ltb 512 (length (mail_line i (actual_params i)))) eqn:E; [|reflexivity].
+      exfalso. assert (existsb (fun p => Nat.ltb 512 (length (mail_line i p))) (mail_params i) = true).
+      { apply existsb_exists. eauto. } congruence. }
+    apply Nat.ltb_ge in Hx. exact Hx.
+  - apply Forall_forall. intros r Hin. unfold short_line.
+    destruct (Nat.ltb 512 (length (rcpt_line r))) eqn:E; [|apply Nat.ltb_ge in E; exact E].
+    exfalso. assert (existsb (fun r => Nat.ltb 512 (length (rcpt_line r))) (i_rcpts i) = true).
+    { apply existsb_exists. eauto. } congruence.
+Qed.
+
+Lemma spec_ok_of_letters i reps net :
+  Forall rep_ok reps -> spec_letters i (map (fun r => hd 0%N r) reps) net = true ->
+  spec_ok_C04 i (Obs 0 (flat reps) net) = true.
+Proof.
+  intros HF HS. unfold spec_ok_C04. rewrite split0_flat.
+  2: { eapply Forall_impl; [|exact HF]. intros r [_ H]. exact H. }
+  rewrite HS. cbn [Nat.eqb bytes_eqb andb]. rewrite andb_true_r.
+  apply forallb_forall. intros r Hin. rewrite Forall_forall in HF. destruct (HF r Hin) as [Hne _].
+  destruct r; [congruence|reflexivity].
+Qed.
+
+(** outside the five recorded classes the whole property holds, for every script, every
+    recipient list, every extension set *)
+Theorem model_meets_spec i : known_class i = false ->
+  exists code status net, qremote_main i = Obs code status net /\ C04_holds i (Obs code status net).
+Proof.
+  intros Hk. destruct (i_rcpts i) as [|r0 rs] eqn:ER.
+  - destruct (main_noargs i ER) as (zr & E & Hok & Hl). exists 0, (flat [zr]), []. split; [exact E|].
+    apply spec_ok_of_letters; [constructor; [exact Hok|constructor]|].
+    cbn [map]. rewrite Hl. unfold spec_letters. rewrite ER. reflexivity.
+  - assert (Hne : i_rcpts i <> []) by (rewrite ER; discriminate).
+    assert (Hfit : cmds_fit i).
+    { apply fits_of_class. unfold known_class in Hk. repeat (apply orb_false_iff in Hk; destruct Hk as [Hk ?]). assumption. }
+    pose proof (main_sem i Hne Hfit) as HM. destruct (ref_main i) as [[ls j] d] eqn:ERM.
+    destruct HM as (reps & q & E & Hq & HF & HL).
+    pose proof (ref_main_spec i q Hne Hk Hq) as HS. rewrite ERM in HS.
+    eexists _, _, _. split; [exact E|]. apply spec_ok_of_letters; [exact HF|]. rewrite HL. exact HS.
+Qed.
+
+(* ---- what a positive verdict of the checker means, in plain propositions ---- *)
+Lemma split0_inv s : forall reps rest, split0 s = (reps, rest) ->
+  s = flat reps ++ rest /\ Forall nulfree reps /\ nulfree rest.
+Proof.
+  induction s as [|x s IH]; intros reps rest H; cbn [split0] in H.
+  - inversion H; subst. repeat split; constructor.
+  - destruct (split0 s) as [rs tl]. destruct (IH rs tl eq_refl) as (E & F & T).
+    destruct (N.eqb x 0) eqn:Ex.
+    + apply N.eqb_eq in Ex. inversion H; subst. repeat split; auto. constructor; [constructor|exact F].
+    + apply N.eqb_neq in Ex. destruct rs as [|r rs'].
+      * inversion H; subst. cbn. repeat split; auto. apply nulfree_cons; auto.
+      * inversion H; subst. inversion F; subst. repeat split; auto. constructor; auto. apply nulfree_cons; auto.
+Qed.
+
+Lemma take_while_split {A} (f : A -> bool) l :
+  l = take_while f l ++ skipn (length (take_while f l)) l /\ forallb f (take_while f l) = true.
+Proof.
+  induction l as [|x l [IH1 IH2]]; cbn [take_while]; [split; reflexivity|].
+  destruct (f x) eqn:E; cbn [length skipn app forallb]; [|split; reflexivity].
+  rewrite E, <- IH1, IH2. split; reflexivity.
+Qed.
+
+Lemma letters_match_nth rl : forall idx scr, letters_match_from idx scr rl = true ->
+  forall k l, nth_error rl k = Some l ->
+  exists c, reply_code (reply_at (idx + k) scr) = Some c /\ letter_matches l c = true.
+Proof.
+  induction rl as [|x rl IH]; intros idx scr H k l Hk; [destruct k; discriminate|].
+  cbn [letters_match_from] in H. destruct (reply_code (reply_at idx scr)) as [c|] eqn:E; [|discriminate].
+  apply andb_true_iff in H as [H1 H2]. destruct k as [|k].
+  - cbn in Hk. inversion Hk; subst. exists c. rewrite Nat.add_0_r. auto.
+  - cbn in Hk. destruct (IH (S idx) scr H2 k l Hk) as (c' & E' & M'). exists c'.
+    rewrite Nat.add_succ_r. auto.
+Qed.
+
+(** [C04_holds] spelled out *)
+Definition C04_readable (i : input) (code : nat) (status net : bytes) : Prop :=
+  let n := length (i_rcpts i) in
+  code = 0 /\
+  exists rr mr : list bytes,                                   (* recipient reports, message reports *)
+    status = flat (rr ++ mr) /\ rr ++ mr <> [] /\
+    Forall (fun r => r <> [] /\ nulfree r) (rr ++ mr) /\
+    length rr <= n /\ length mr <= 1 /\
+    Forall (fun r => is_rcpt_letter (hd 0%N r) = true) rr /\
+    Forall (fun r => is_msg_letter (hd 0%N r) = true) mr /\
+    (rr <> [] -> mail_accepted (i_script i) = true) /\
+    (forall k r, nth_error rr k = Some r ->
+       exists c, reply_code (reply_at (S k) (i_script i)) = Some c /\ letter_matches (hd 0%N r) c = true) /\
+    ((exists r, In r rr /\ hd 0%N r = L_r) \/ rr = [] -> mr <> []) /\
+    (forall m, In m mr -> hd 0%N m = L_K ->
+       (exists c, reply_code (reply_at (n + 2) (i_script i)) = Some c /\ is_2xx c = true)
+       /\ length rr = n /\ exists r, In r rr /\ hd 0%N r = L_r) /\
+    ((net = [] /\ rr = []) \/
+     exists j p t, length rr <= j <= n /\ In p (mail_params i) /\ In t (tails i)
+       /\ net = mail_line i p ++ concat (map rcpt_line (firstn j (i_rcpts i))) ++ snd t
+       /\ (fst t = true -> (exists r, In r rr /\ hd 0%N r = L_r) /\ j = n)).
+
+Lemma existsb_hd l (reps : list bytes) :
+  existsb (N.eqb l) (map (fun r => hd 0%N r) reps) = true -> exists r, In r reps /\ hd 0%N r = l.
+Proof.
+  intros H. apply existsb_exists in H as (x & Hin & Hx). apply in_map_iff in Hin as (r & Hr & Hin).
+  apply N.eqb_eq in Hx. exists r. split; [exact Hin|congruence].
+Qed.
+
+Theorem checker_sound i code status net : C04_holds i (Obs code status net) -> C04_readable i code status net.
+Proof.
+  unfold C04_holds, spec_ok_C04. destruct (split0 status) as [reps rest] eqn:ES. intros H.
+  repeat (apply andb_true_iff in H; destruct H as [H ?]).
+  rename H into Hcode, H0 into Hlet, H1 into Hnonempty, H2 into Hrest.
+  apply Nat.eqb_eq in Hcode. apply bytes_eqb_eq in Hrest. subst rest.
+  destruct (split0_inv status reps [] ES) as (Est & Fn & _). rewrite app_nil_r in Est.
+  unfold spec_letters in Hlet.
+  set (letters := map (fun r => hd 0%N r) reps) in *.
+  destruct (take_while_split is_rcpt_letter letters) as [Esplit Frl].
+  set (rl := take_while is_rcpt_letter letters) in *.
+  set (ml := skipn (length rl) letters) in *.
+  repeat (apply andb_true_iff in Hlet; destruct Hlet as [Hlet ?]).
+  rename Hlet into Hne, H into Hcmd, H0 into HK, H1 into Hpres, H2 into Hmatch, H3 into Hmail, H4 into Hml, H5 into Hmlen, H6 into Hrlen.
+  (* cut the reports like their letters *)
+  set (rr := firstn (length rl) reps). set (mr := skipn (length rl) reps).
+  assert (Ereps : reps = rr ++ mr) by (symmetry; apply firstn_skipn).
+  assert (Lrl : length rl <= length reps).
+  { assert (H1 : length letters = length reps) by (subst letters; apply map_length).
+    pose proof (f_equal (@length N) Esplit) as H2. rewrite app_length in H2. fold rl in H2. lia. }
+  assert (Err : map (fun r => hd 0%N r) rr = rl).
+  { unfold rr. rewrite <- firstn_map. change (map (fun r : list N => hd 0%N r) reps) with letters.
+    rewrite Esplit, firstn_app, Nat.sub_diag, firstn_all. cbn [firstn]. apply app_nil_r. }
+  assert (Emr : map (fun r => hd 0%N r) mr = ml).
+  { unfold mr, ml. rewrite <- skipn_map. reflexivity. }
+  assert (Lrr : length rr = length rl) by (rewrite <- Err; symmetry; apply map_length).
+  assert (Lmr : length mr = length ml) by (rewrite <- Emr; symmetry; apply map_length).
+  split; [exact Hcode|]. exists rr, mr. rewrite <- Ereps.
+  split; [exact Est|].
+  split; [intros ->; cbn in Hne; discriminate|].
+  split.
+  { apply Forall_forall. intros r Hin. rewrite forallb_forall in Hnonempty. rewrite Forall_forall in Fn.
+    split; [|apply Fn; exact Hin]. specialize (Hnonempty r Hin). destruct r; [discriminate|discriminate]. }
+  split; [rewrite Lrr; apply Nat.leb_le; exact Hrlen|].
+  split; [rewrite Lmr; apply Nat.leb_le; exact Hmlen|].
+  split.
+  { apply Forall_forall. intros r Hin. rewrite forallb_forall in Frl. apply Frl. rewrite <- Err. apply in_map. exact Hin. }
+  split.
+  { apply Forall_forall. intros r Hin. rewrite forallb_forall in Hml. apply Hml. rewrite <- Emr. apply in_map. exact Hin. }
+  split.
+  { intros Hrr. apply orb_true_iff in Hmail as [Hz|Hm]; [|exact Hm].
+    apply Nat.eqb_eq in Hz. rewrite <- Lrr in Hz. destruct rr; [congruence|discriminate]. }
+  split.
+  { intros k r Hk. apply (letters_match_nth rl 1 (i_script i) Hmatch k (hd 0%N r)).
+    rewrite <- Err. apply map_nth_error. exact Hk. }
+  split.
+  { intros Hpre Hmr. rewrite Hmr in Lmr. cbn in Lmr.
+    assert (Hx : existsb (N.eqb L_r) rl || Nat.eqb (length rl) 0 = true).
+    { destruct Hpre as [(r & Hin & Hr)|Hrr].
+      - apply orb_true_iff. left. apply existsb_exists. exists (hd 0%N r). split; [rewrite <- Err; apply in_map; exact Hin|].
+        rewrite Hr. apply N.eqb_refl.
+      - apply orb_true_iff. right. rewrite <- Lrr, Hrr. reflexivity. }
+    rewrite Hx in Hpres. cbn [negb orb] in Hpres. apply Nat.eqb_eq in Hpres. lia. }
+  split.
+  { intros m Hin Hm.
+    assert (Hx : existsb (N.eqb L_K) ml = true).
+    { apply existsb_exists. exists (hd 0%N m). split; [rewrite <- Emr; apply in_map; exact Hin|]. rewrite Hm. apply N.eqb_refl. }
+    rewrite Hx in HK. cbn [negb orb] in HK. repeat (apply andb_true_iff in HK; destruct HK as [HK ?]).
+    split; [|split].
+    - destruct (reply_code (reply_at (length (i_rcpts i) + 2) (i_script i))) as [c|]; [|discriminate]. exists c. auto.
+    - rewrite Lrr. apply Nat.eqb_eq. assumption.
+    - apply existsb_hd. rewrite Err. assumption. }
+  { unfold cmds_ok in Hcmd. apply orb_true_iff in Hcmd as [Hc|Hc].
+    - left. apply andb_true_iff in Hc as [H1 H2]. apply bytes_eqb_eq in H1. apply Nat.eqb_eq in H2.
+      split; [exact H1|]. rewrite <- Lrr in H2. destruct rr; [reflexivity|discriminate].
+    - right. apply existsb_exists in Hc as (j & Hj & Hc). apply in_seq in Hj.
+      apply andb_true_iff in Hc as [Hle Hc]. apply Nat.leb_le in Hle.
+      apply existsb_exists in Hc as (p & Hp & Hc). apply existsb_exists in Hc as (t & Ht & Hc).
+      apply andb_true_iff in Hc as [Heq Hfl]. apply bytes_eqb_eq in Heq.
+      exists j, p, t. split; [rewrite Lrr; lia|]. split; [exact Hp|]. split; [exact Ht|]. split; [exact Heq|].
+      destruct t as [tf tb]. cbn [fst snd] in *. intros Hf. subst tf. cbn [negb orb] in Hfl. apply andb_true_iff in Hfl as [Ha Hb].
+      apply Nat.eqb_eq in Hb. split; [|exact Hb]. apply existsb_hd. rewrite Err. exact Ha. }
+Qed.
